@@ -141,6 +141,23 @@ impl Config {
 
 fn gen_axis(rng: &mut Rng, len: usize) -> ArcArray1<f64> {
     let mut v = Vec::with_capacity(len);
+    if rng.chance(0.25) {
+        // interval lengths that differ by many orders of magnitude (a first interval of 1e-30 .. 1e-12 next to the origin, later ones of
+        // ordinary or huge length): anything that carries a quantity measured in one interval over to another (a remembered interval
+        // used as the starting point of the next lookup, say) overflows or loses all precision here
+        let mut cur = 0.0f64;
+        for i in 0..len {
+            v.push(cur);
+            cur += match (i, rng.below(4)) {
+                (0, 0) => 1e-30,
+                (0, 1) => 1e-20,
+                (0, _) => 1e-12,
+                (_, 0) => 1e15,
+                _ => rng.uniform(0.1, 2.0),
+            };
+        }
+        return Array1::from(v).into_shared();
+    }
     let mut cur = rng.uniform(-5.0, 5.0);
     for _ in 0..len {
         v.push(cur);
@@ -638,6 +655,11 @@ fn gen_in_range(rng: &mut Rng, axis: &ArcArray1<f64>) -> f64 {
             } else {
                 hi
             }
+        }
+        2 | 3 => {
+            // the middle of an interval chosen by its number, not by its length (so narrow intervals are visited too)
+            let i = rng.below(axis.len() - 1);
+            (axis[i] + (axis[i + 1] - axis[i]) * 0.5).clamp(lo, hi)
         }
         _ => rng.uniform(lo, hi).clamp(lo, hi),
     }
